@@ -59,29 +59,32 @@ func (h *history) nextCommit(i int) time.Time {
 	return far
 }
 
-func (h *history) nextUpload(i int) int {
-	if i+1 < len(h.parents) {
-		return h.parents[i+1].upload
-	}
-	return 1 << 30
-}
-
-// inMust reports whether a child version written after parent version i must be in its
-// update list; inAllowed whether it may be.
-func (h *history) inMust(i int, v *ver) bool {
+// after reports whether child version v was written after parent version i: committed at a
+// later instant, or (separated pre-commit and mixed regimes, where versions of one second may
+// belong to different changesets) logged later. A version logged before a parent version and
+// committed in the same second is current for that parent version.
+func (h *history) after(i int, v *ver) bool {
 	p := h.parents[i]
 	if h.regime != "commit" {
-		return v.upload > p.upload && v.upload < h.nextUpload(i)
+		return v.upload > p.upload
 	}
-	return v.commit.After(p.commit) && v.commit.Before(h.nextCommit(i).Add(-h.th))
+	return v.commit.After(p.commit)
+}
+
+// inMust reports whether a child version must be in the update list of parent version i:
+// written after it and committed strictly before the next parent version. This is exact in
+// every regime: with commit times no grouping threshold applies ("exactly the later child
+// versions up to the next parent version"); in the separated pre-commit regime a version of an
+// earlier upload is more than two thresholds older than the next parent version.
+// inAllowed additionally admits versions committed in the very instant of the next parent
+// version (they are current for that version; the library lists those of a same-instant burst
+// that are not the last one, which no query time can observe).
+func (h *history) inMust(i int, v *ver) bool {
+	return h.after(i, v) && v.commit.Before(h.nextCommit(i))
 }
 
 func (h *history) inAllowed(i int, v *ver) bool {
-	p := h.parents[i]
-	if h.regime != "commit" {
-		return v.upload > p.upload && v.upload <= h.nextUpload(i)
-	}
-	return v.commit.After(p.commit) && !v.commit.After(h.nextCommit(i))
+	return h.after(i, v) && !v.commit.After(h.nextCommit(i))
 }
 
 // judge evaluates the served history of every child against the parents.
@@ -117,7 +120,7 @@ func (h *history) judge(p *plan) map[key]*childVerdict {
 			if h.regime != "commit" {
 				// a deleted version in the parent's own upload: the heuristic may still see the previous one
 				for _, v := range cv.sv {
-					if v.upload == pv.upload && !v.visible {
+					if v.commit.Equal(pv.commit) && !v.visible {
 						sameUploadDelete = true
 						cv.maybe = true
 					}
@@ -137,12 +140,10 @@ func (h *history) judge(p *plan) map[key]*childVerdict {
 				case h.regime != "commit":
 					// deleted in the next parent's upload: the consistent pattern when that version drops the child
 				default:
-					// deleted within the threshold before (or at) the next parent version
-					nc := h.nextCommit(i)
-					if after := currentAt(cv.sv, nc); after != nil && after.visible {
-						add(kDeleted) // deleted and restored between the two parent versions
-					} else if v.commit.Before(nc) {
-						cv.maybe = true // deleted shortly before the next parent version while still referenced
+					// deleted in the very instant of the next parent version: an error only if it was also
+					// restored in that instant (deleted and restored between the two parent versions)
+					if after := currentAt(cv.sv, h.nextCommit(i)); after != nil && after.visible {
+						add(kDeleted)
 					}
 				}
 			}
@@ -165,13 +166,41 @@ func runC11(t *testing.T, r *kit.Run) {
 			ao.ignoreMissing = r.Tape.Chance(1, 3)
 			ao.ignoreInconsistent = r.Tape.Chance(1, 3)
 		}
-		filterMode := 0
-		var selected map[key]bool
+		var fc *filterCfg
 		if family == 3 {
-			filterMode = 1 + r.Tape.Draw(2) // 1: re-annotation of annotated parents, 2: fresh parents
-			selected = map[key]bool{}
+			// incremental annotation: parent versions [0, prefix) are already annotated (with the model's
+			// own answer), the later ones are new; the whole list is annotated again with a ChildFilter
+			fc = &filterCfg{selected: map[key]bool{}}
+			fc.prefix = r.Tape.Draw(1<<16) % (len(h.parents) + 1)
+			if r.Tape.Chance(1, 2) && len(h.parents) > 1 {
+				fc.prefix = 1 + r.Tape.Draw(len(h.parents)-1) // properly incremental: some old, some new
+			}
+			fc.kind = r.Tape.Draw(5)
+			hs := uint64(r.Tape.Draw(1 << 16))
 			for _, k := range h.kidKeys {
-				selected[k] = r.Tape.Bool()
+				coin := r.Tape.Bool()
+				switch fc.kind {
+				case 0:
+					fc.selected[k] = true
+				case 1:
+					fc.selected[k] = false
+				case 2:
+					// only the children changed in the batch, i.e. after the last annotated parent version
+					if fc.prefix == 0 {
+						fc.selected[k] = true
+					} else {
+						last := h.parents[fc.prefix-1]
+						for _, v := range h.kids[k] {
+							if v.upload > last.upload {
+								fc.selected[k] = true
+							}
+						}
+					}
+				case 3:
+					fc.selected[k] = kit.Mix(hs+uint64(k.id)*31+uint64(k.typ))&1 == 1
+				default:
+					fc.selected[k] = coin
+				}
 			}
 			p.failAt = 0
 		}
@@ -180,7 +209,7 @@ func runC11(t *testing.T, r *kit.Run) {
 		if pin >= 0 && hi != pin {
 			continue
 		}
-		nt := c11History(t, r, hi, h, p, ao, filterMode, selected, qseed)
+		nt := c11History(t, r, hi, h, p, ao, fc, qseed)
 		if (nt && !sampled) || pin >= 0 {
 			sampled = true
 			sc := h.summary()
@@ -191,14 +220,14 @@ func runC11(t *testing.T, r *kit.Run) {
 			if ao.ignoreInconsistent {
 				sc["ignore_inconsistency"] = true
 			}
-			if filterMode > 0 {
+			if fc != nil {
 				var sel []string
 				for _, k := range h.kidKeys {
-					if selected[k] {
+					if fc.selected[k] {
 						sel = append(sel, k.String())
 					}
 				}
-				sc["child_filter"] = map[string]interface{}{"selects": sel, "parents_already_annotated": filterMode == 1}
+				sc["child_filter"] = map[string]interface{}{"kind": filterKinds[fc.kind], "accepts": sel, "parent_versions_already_annotated": fc.prefix}
 			}
 			if pin >= 0 || r.Replay {
 				sc["log"] = h.log
@@ -207,6 +236,43 @@ func runC11(t *testing.T, r *kit.Run) {
 		}
 	}
 	r.Out.Workload = wl
+}
+
+// filterCfg is the incremental-annotation scenario.
+type filterCfg struct {
+	prefix   int // parent versions [0, prefix) are already annotated
+	kind     int
+	selected map[key]bool // children the filter accepts
+}
+
+var filterKinds = [5]string{"accept-all", "reject-all", "children-changed-in-the-batch", "hash-of-id", "drawn-per-child"}
+
+// prefixAnnotated returns fresh parents whose first j versions carry the model's annotation.
+func (h *history) prefixAnnotated(j int, verdicts map[key]*childVerdict) (osm.Ways, osm.Relations) {
+	var ws osm.Ways
+	var rs osm.Relations
+	if h.parent.typ == tWay {
+		ws = h.parentWays(false)
+	} else {
+		rs = h.parentRelations(false)
+	}
+	for i := 0; i < j && i < len(h.parents); i++ {
+		pv := h.parents[i]
+		if !pv.visible {
+			continue
+		}
+		for idx, m := range pv.mems {
+			cur := currentAt(verdicts[m.k].sv, pv.commit)
+			if ws != nil {
+				n := &ws[i].Nodes[idx]
+				n.Version, n.ChangesetID, n.Lat, n.Lon = cur.version, cur.cs, cur.lat, cur.lon
+			} else {
+				mm := &rs[i].Members[idx]
+				mm.Version, mm.ChangesetID, mm.Lat, mm.Lon = cur.version, cur.cs, cur.lat, cur.lon
+			}
+		}
+	}
+	return ws, rs
 }
 
 // applyAt returns the children of parent version i of an annotated result after
@@ -242,7 +308,7 @@ func slotMatches(s pslot, v *ver) string {
 	return ""
 }
 
-func c11History(t *testing.T, r *kit.Run, hi int, h *history, p *plan, ao annOpts, filterMode int, selected map[key]bool, qseed uint64) bool {
+func c11History(t *testing.T, r *kit.Run, hi int, h *history, p *plan, ao annOpts, fc *filterCfg, qseed uint64) bool {
 	o := r.Out
 	pinStr := fmt.Sprintf("[[h=%d]] ", hi)
 	desc := fmt.Sprintf("%s %s, %s regime, threshold %v, %d parent versions, %d children", typeNames[h.parent.typ], h.parent, h.regime, h.th, len(h.parents), len(h.kidKeys))
@@ -301,39 +367,46 @@ func c11History(t *testing.T, r *kit.Run, hi int, h *history, p *plan, ao annOpt
 		orders = append(orders, kit.SchedCfg{Seed: kit.Mix(r.Sched.Seed + uint64(hi)*64 + 1)}, kit.SchedCfg{Seed: kit.Mix(r.Sched.Seed + uint64(hi)*64 + 2)})
 	}
 
-	// the filter scenario re-annotates parents that a first, complete annotation produced
+	// the incremental scenario: every referenced child must be clean (the family has no faults)
 	var filter func(osm.FeatureID) bool
-	if filterMode > 0 {
-		filter = func(f osm.FeatureID) bool { return selected[h.keyOfFeature(f, false)] }
+	if fc != nil {
+		for _, pv := range h.parents {
+			for _, m := range pv.mems {
+				if !verdicts[m.k].clean() {
+					o.Probe("filter-scenario-skipped")
+					return false
+				}
+			}
+		}
+		filter = func(f osm.FeatureID) bool { return fc.selected[h.keyOfFeature(f, false)] }
 		o.Probe("child-filter")
+		o.Probe("child-filter/" + filterKinds[fc.kind])
+		if fc.prefix > 0 && fc.prefix < len(h.parents) {
+			o.Probe("child-filter/incremental-old-and-new-parent-versions")
+		}
+	}
+	// pass reports whether the reference at (parent version i, child k) is subject to annotation:
+	// always when it was unannotated, otherwise only if the filter accepts the child
+	pass := func(i int, k key) bool {
+		return fc == nil || i >= fc.prefix || fc.selected[k]
 	}
 
+	var fcHash uint64
+	if fc != nil {
+		fcHash = kit.Mix(uint64(fc.prefix)*7 + uint64(fc.kind) + 1)
+	}
 	nontrivial := false
 	rng := qseed
 	for oi, sched := range orders {
 		run := ao
 		var before []pver
-		if filterMode == 1 {
-			first := h.run(t, p, kit.SchedCfg{Flat: true}, false, annOpts{})
-			if first.err != nil || first.panicMsg != "" {
-				// judged by the unfiltered families
-				return false
+		if fc != nil {
+			run.preWays, run.preRels = h.prefixAnnotated(fc.prefix, verdicts)
+			if run.preWays != nil {
+				before = waysToPvers(run.preWays)
+			} else {
+				before = relsToPvers(run.preRels)
 			}
-			before = first.parents
-			run.preWays, run.preRels = first.ways, first.rels
-			for i := range run.preWays {
-				run.preWays[i].Updates = nil
-			}
-			for i := range run.preRels {
-				run.preRels[i].Updates = nil
-			}
-			// deep copy of the slots: the second annotation writes into the same elements
-			cp := make([]pver, len(before))
-			for i := range before {
-				cp[i] = before[i]
-				cp[i].slots = append([]pslot(nil), before[i].slots...)
-			}
-			before = cp
 		}
 		run.filter = filter
 		res := h.run(t, p, sched, false, run)
@@ -405,8 +478,8 @@ func c11History(t *testing.T, r *kit.Run, hi int, h *history, p *plan, ao annOpt
 		}
 
 		// ---- exact oracle on every clean child
-		judged := func(k key) bool {
-			return verdicts[k].clean() && (filterMode != 1 || selected[k])
+		judgedAt := func(i int, k key) bool {
+			return verdicts[k].clean() && pass(i, k)
 		}
 		for i, pv := range h.parents {
 			got := &res.parents[i]
@@ -419,15 +492,23 @@ func c11History(t *testing.T, r *kit.Run, hi int, h *history, p *plan, ao annOpt
 			missorted, _ := orderViolation(got.updates)
 			// (a) the child current when the parent version was committed
 			for j, m := range pv.mems {
-				if !judged(m.k) {
-					if filterMode == 1 && !selected[m.k] && before != nil {
+				if !judgedAt(i, m.k) {
+					if fc != nil && !pass(i, m.k) {
+						o.Probe("child-filter/annotated-reference-of-rejected-child")
 						if got.slots[j] != before[i].slots[j] {
-							violate("C11/filter/unselected-child-changed", "parent v%d child %d (%s) was annotated %+v and is now %+v although the filter rejects it", pv.version, j, m.k, before[i].slots[j], got.slots[j])
+							violate("C11/filter/rejected-child-changed", "parent v%d child %d (%s) was annotated %+v and is now %+v although the filter rejects it", pv.version, j, m.k, before[i].slots[j], got.slots[j])
 						}
 					}
 					continue
 				}
 				cur := currentAt(verdicts[m.k].sv, pv.commit)
+				if fc != nil && i >= fc.prefix && !fc.selected[m.k] {
+					o.Probe("child-filter/unannotated-reference-of-rejected-child")
+					if got.slots[j].version == 0 {
+						violate("C11/filter/unannotated-child-left-unannotated", "parent v%d child %d (%s) was not annotated before this call and the filter (%s) rejects it: it must be annotated regardless (current v%d), but is still unannotated", pv.version, j, m.k, filterKinds[fc.kind], cur.version)
+						continue
+					}
+				}
 				if w := slotMatches(got.slots[j], cur); w != "" {
 					violate("C11/current-child/"+w, "parent v%d (committed +%v) child %d = %s: annotated v%d changeset %d (%g,%g); current at that time was v%d changeset %d (%g,%g)",
 						pv.version, pv.commit.Sub(h.uploads[0]), j, m.k, got.slots[j].version, got.slots[j].cs, got.slots[j].lat, got.slots[j].lon, cur.version, cur.cs, cur.lat, cur.lon)
@@ -446,7 +527,7 @@ func c11History(t *testing.T, r *kit.Run, hi int, h *history, p *plan, ao annOpt
 				nontrivial = true
 			}
 			for j, m := range pv.mems {
-				if !judged(m.k) {
+				if !judgedAt(i, m.k) {
 					continue
 				}
 				sv := verdicts[m.k].sv
@@ -475,7 +556,13 @@ func c11History(t *testing.T, r *kit.Run, hi int, h *history, p *plan, ao annOpt
 						violate("C11/update-list/missing-version", "parent v%d child %d = %s: v%d was committed after this parent version and more than the threshold before the next, but is not in the update list (%s)", pv.version, j, m.k, v.version, shortUpdates(got.updates))
 					}
 					if v.visible && h.inAllowed(i, v) && !h.inMust(i, v) {
+						o.Probe("child-version-at-the-next-parent's-instant")
+					}
+					if v.visible && h.inMust(i, v) && h.regime == "commit" && h.th > 0 && !v.commit.Before(h.nextCommit(i).Add(-h.th)) {
 						o.Probe("child-version-within-threshold-of-next-parent")
+					}
+					if h.regime != "commit" && v.commit.Equal(pv.commit) && v.cs != pv.cs && v.upload < pv.upload {
+						o.Probe("same-second-child-edit-under-another-changeset")
 					}
 					if v.commit.Equal(pv.commit) {
 						o.Probe("child-version-at-the-parent's-instant")
@@ -485,17 +572,33 @@ func c11History(t *testing.T, r *kit.Run, hi int, h *history, p *plan, ao annOpt
 			// (c) time travel
 			var times []time.Time
 			if h.regime != "commit" {
+				// instants at which every element of the uploads so far carries a timestamp <= t and every
+				// later upload a timestamp > t: the end of the jitter window and the middle of the gap after
+				// each distinct upload time from the parent version's up to (not including) the next one's
 				jit := h.th / 2
-				for u := pv.upload; u < h.nextUpload(i) && u < len(h.uploads); u++ {
-					times = append(times, h.uploads[u].Add(jit))
-					if u+1 < len(h.uploads) {
-						times = append(times, h.uploads[u].Add(h.uploads[u+1].Sub(h.uploads[u])/2))
+				nc := h.nextCommit(i)
+				for u := pv.upload; u < len(h.uploads); u++ {
+					tu := h.uploads[u]
+					if !tu.Before(nc) {
+						break
+					}
+					if u > pv.upload && tu.Equal(h.uploads[u-1]) {
+						continue
+					}
+					times = append(times, tu.Add(jit))
+					nu := u + 1
+					for nu < len(h.uploads) && h.uploads[nu].Equal(tu) {
+						nu++
+					}
+					if nu < len(h.uploads) {
+						times = append(times, tu.Add(h.uploads[nu].Sub(tu)/2))
 					} else {
-						times = append(times, h.uploads[u].Add(24*time.Hour))
+						times = append(times, tu.Add(24*time.Hour))
 					}
 				}
 			} else {
-				end := h.nextCommit(i).Add(-h.th) // exclusive
+				// with commit times the update list is exact, so every t before the next parent version is judged
+				end := h.nextCommit(i) // exclusive
 				last := h.uploads[len(h.uploads)-1].Add(time.Hour)
 				if i+1 >= len(h.parents) {
 					end = last.Add(time.Second)
@@ -509,7 +612,7 @@ func c11History(t *testing.T, r *kit.Run, hi int, h *history, p *plan, ao annOpt
 				add(end.Add(-time.Second))
 				add(end.Add(-time.Nanosecond))
 				for _, m := range pv.mems {
-					if !judged(m.k) {
+					if !judgedAt(i, m.k) {
 						continue
 					}
 					for _, v := range verdicts[m.k].sv {
@@ -536,7 +639,7 @@ func c11History(t *testing.T, r *kit.Run, hi int, h *history, p *plan, ao annOpt
 					continue
 				}
 				for j, m := range pv.mems {
-					if !judged(m.k) {
+					if !judgedAt(i, m.k) {
 						continue
 					}
 					want := currentAt(verdicts[m.k].sv, tq)
@@ -556,7 +659,7 @@ func c11History(t *testing.T, r *kit.Run, hi int, h *history, p *plan, ao annOpt
 		}
 		if nontrivial {
 			o.NonTrivial++
-			o.Pairs = append(o.Pairs, kit.Mix(h.hash()^sh^uint64(filterMode)))
+			o.Pairs = append(o.Pairs, kit.Mix(h.hash()^sh^fcHash))
 		}
 	}
 
